@@ -781,7 +781,7 @@ func (c *Ctx) freshLocal(fi *load.FuncInfo, recv ast.Expr, at ast.Node) bool {
 		case *ast.CompositeLit:
 		case *ast.CallExpr:
 			fn := astx.Callee(info, y)
-			if fn == nil || !strings.HasPrefix(fn.Name(), "New") {
+			if fn == nil || !strings.HasPrefix(fname(fn), "New") {
 				return false
 			}
 		default:
